@@ -30,8 +30,8 @@ ID = "C10"
 LEVEL = "fault_enumeration"
 RULE = (
     "bases = the valid, cheap-default configurations of the C04 space (every q-th in enumeration order: round trips "
-    "quick q=12 / thorough q=2; fault bases: 2 (thorough 12) per list size, evenly spaced in enumeration order; "
-    "history bases: 1 (thorough 3) per size) + 7 hand-written extras (string-typed numbers and comma strings, a '%' inside a string option, float / percent "
+    "quick q=36 / thorough q=4; fault bases: 2 (thorough 12) per list size, evenly spaced in enumeration order; "
+    "history bases: 1 (thorough 3) per size (quick: sizes 2 and 3 only) + 2 (thorough 5) extras) + 7 hand-written extras (string-typed numbers and comma strings, a '%' inside a string option, float / percent "
     "vary_rounds incl. '12.5%', a context-keyword scheme, truncate_error, an unregistered custom hasher object with "
     "category options).  Round-trip routes: dict, string, bytes, path, copy, update_empty, load_self, load_dict, "
     "load_string, update with each valid single change.  Fault space = base x kind/variant (unknown scheme, unknown "
@@ -396,7 +396,8 @@ def _eval_roundtrip(case, out, acc=None, tmpdir=None):
             if not touched <= set(ch):
                 out.append((f"C10|update|other_keys_changed:{kind}", f"update(**{ch!r}) on {cfg!r} also changed {sorted(touched - set(ch))}"))
             t2 = probe_table(merged if not custom else dict(cfg, **ch), seed)
-            diff = first_diff(fingerprint(fresh, t2, seed), fingerprint(live, t2, seed))
+            dg = "schemes" in ch  # stale dummy hash / keyword filtering can only show when the scheme list changes
+            diff = first_diff(fingerprint(fresh, t2, seed, digests=dg), fingerprint(live, t2, seed, digests=dg))
             if diff:
                 out.append((f"C10|update|decisions_differ_from_fresh:{kind}:{diff[0]}", f"update(**{ch!r}) on {cfg!r}: {diff[1]} (fresh context vs updated one)"))
     if own_tmp:
@@ -922,7 +923,7 @@ def _work(task):
 def run(ctx):
     seed = ctx.seed
     bases = cheap_valid_bases(ctx.quick, seed)
-    q = 12 if ctx.quick else 2
+    q = 36 if ctx.quick else 4
     rt = [(base_cls(sp), cfg) for sp, cfg in bases[::q]] + [(f"extra{i}", cfg) for i, cfg in enumerate(EXTRAS)]
     per = 2 if ctx.quick else 12
     hper = 1 if ctx.quick else 3
@@ -932,7 +933,8 @@ def run(ctx):
         step = max(1, len(sized) // per)
         fb += sized[::step][:per]
         hstep = max(1, len(sized) // hper)
-        hb += sized[5::hstep][:hper]
+        if n > 1 or not ctx.quick:
+            hb += sized[5::hstep][:hper]
     fb += [(f"extra{i}", cfg) for i, cfg in enumerate(EXTRAS)]
     hb += [(f"extra{i}", cfg) for i, cfg in enumerate(EXTRAS) if not has_custom(cfg)][:2 if ctx.quick else 5]
     tasks = []
